@@ -26,7 +26,7 @@ ASSUMPTIONS = [
     "phase split (translate/c20/phases.json, committed): functions listed as setup (NewMuxer, mux.Handle, mux.Use, sampler constructors; generated New/Mount*/Server.Use/NewEndpoints/Endpoints.Use/NewClient) run before any request is served, as the property says ('once handlers and middlewares have been mounted'); mux.wildcards is written under mux.mu in Handle and read WITHOUT the lock in Vars/ResolvePattern — race-free only by this split (reported in coverage.phase_split)",
     "request-scoped types of phases.json (pkg.writerToReaderAdapter) are private to one response; the translator checks that every allocation site is in request-phase code; sync.Once is outside the lockset vocabulary",
     "sync/atomic functions and types, sync.Map and other sync.* objects are atomic accesses; `atomic.StoreUint32(&s.counter, 0) // race is ok` in the adaptive sampler is an atomic write (a lost update of the counter, not a data race)",
-    "races inside the standard library, chi and gRPC are out of scope; generated code is covered for the four fixed designs of harness/cmd/c20/designs.go (HTTP, no streaming)",
+    "races inside the standard library, chi and gRPC are out of scope; generated code is covered for the five fixed designs of harness/cmd/c20/designs.go (HTTP incl. websocket streaming, Skip*BodyEncodeDecode, multipart, file servers, redirects, security; no gRPC); branch coverage of the handler templates by these designs is tabulated in notes/C20.md",
     "goa_request_path_isolated is a DISCIPLINE check, not semantic noninterference: every request-phase write to a shared location (plain, atomic, sync.Map, sync.Pool.Put, mutator-named calls on objects of unresolved type) is classified in translate/c20/shared_writes.json as memo (then memo_isolation applies; F being a function of the key is read off the source, not proved), monotone helper state (responses may depend on it by design) or request-private (argued per entry, not proved); leaks through objects the translator deems request-private (parameters, locals, interfaces) are only looked for dynamically",
     "the stress and echo runs are supporting evidence and the failing-schedule search; a clean run of them proves nothing",
 ]
@@ -75,22 +75,23 @@ def run_harness(ck, binp, args, timeout=1500):
     return sh([binp] + args, timeout=timeout, env=env)
 
 
-def run_gen_echo(ck, tier, race, res_out):
-    """Compile the driver written next to the generated 'store' packages, start it (it runs
-    the generated-client check itself), then send it the raw echo requests."""
+def run_gen_echo(ck, tier, race, res_out, design="store"):
+    """Compile the driver written next to the generated packages of a design, start it (it
+    runs the generated-client check itself); for 'store' then send it the raw echo requests."""
     gen = os.path.join(ck.work, "gen")
-    drv = os.path.join(ck.work, "echo-store" + ("-race" if race else ""))
-    cmd = ["go", "build"] + (["-race"] if race else []) + ["-o", drv, "./store/cmd/echo"]
+    drv = os.path.join(ck.work, "echo-" + design + ("-race" if race else ""))
+    cmd = ["go", "build"] + (["-race"] if race else []) + ["-o", drv, "./%s/cmd/echo" % design]
     rc, out = sh(cmd, cwd=gen, env=goenv(), timeout=1200)
     if rc != 0:
         return {"built": False, "error": out[-3000:]}
     n, per = {"thorough": (64, 300), "search": (32, 200)}.get(tier, (16, 250))
     env = goenv()
     env["GORACE"] = "exitcode=0 halt_on_error=0"
-    errf = open(os.path.join(ck.work, "echo_driver.stderr"), "w")
-    p = subprocess.Popen([drv, "-n", str(n), "-per", str(per)], stdin=subprocess.PIPE, stdout=subprocess.PIPE,
-                         stderr=errf, text=True, env=env)
-    info = {"built": True, "race": race, "client": None, "raw": None, "server_failures": []}
+    errpath = os.path.join(ck.work, "echo_driver_%s.stderr" % design)
+    errf = open(errpath, "w")
+    args = [drv, "-n", str(n), "-per", str(per)] + (["-dir", ck.work] if design == "media" else [])
+    p = subprocess.Popen(args, stdin=subprocess.PIPE, stdout=subprocess.PIPE, stderr=errf, text=True, env=env)
+    info = {"built": True, "race": race, "client": None, "raw": None, "server_failures": [], "design": design, "raw_expected": design == "store"}
     try:
         url = None
         deadline = time.time() + 600
@@ -103,7 +104,7 @@ def run_gen_echo(ck, tier, race, res_out):
             elif line.startswith("@@CLIENT "):
                 info["client"] = json.loads(line[len("@@CLIENT "):])
                 break
-        if url and info["client"] is not None:
+        if url and info["client"] is not None and design == "store":
             rc, out = run_harness(ck, res_out["bin"], ["-mode", "echo", "-addr", url, "-seed", str(ck.seed), "-tier", tier, "-out", ck.work])
             info["raw_output"] = out[-4000:]
             if rc == 0 and os.path.exists(os.path.join(ck.work, "echo_gen.json")):
@@ -123,7 +124,7 @@ def run_gen_echo(ck, tier, race, res_out):
         if p.poll() is None:
             p.kill()
         errf.close()
-    info["stderr"] = open(os.path.join(ck.work, "echo_driver.stderr")).read()[-20000:]
+    info["stderr"] = open(errpath).read()[-20000:]
     info["rc"] = p.returncode
     return info
 
@@ -131,21 +132,24 @@ def run_gen_echo(ck, tier, race, res_out):
 def use_gen_echo(ck, info, where):
     """turn what the generated-code echo run saw into failures; returns evaluations"""
     ev = 0
+    design = info.get("design", "store")
     if not info.get("built"):
-        ck.failure("generated-code-does-not-compile", "the code generated for the fixed design 'store' (plus its driver) does not compile",
-                   {"input": {"design": "store (harness/cmd/c20/designs.go)", "go_build": info.get("error")}})
+        ck.failure("generated-code-does-not-compile/" + design, "the code generated for the fixed design '%s' (plus its driver) does not compile" % design,
+                   {"input": {"design": design + " (harness/cmd/c20/designs.go)", "go_build": info.get("error")}})
         return 0
-    record_races(ck, info.get("stderr", ""), "the generated store server/client served concurrent requests (" + where + ")", {"input": {"design": "store"}})
+    record_races(ck, info.get("stderr", ""), "the generated %s server/client served concurrent requests (%s)" % (design, where), {"input": {"design": design}})
     if info.get("client") is None:
-        ck.failure("generated-server-crashed", "the driver of the generated store server died before finishing the client run",
-                   {"input": {"design": "store", "stderr": info.get("stderr", "")[-3000:]}})
+        ck.failure("generated-server-crashed/" + design, "the driver of the generated %s server died before finishing the client run" % design,
+                   {"input": {"design": design, "stderr": info.get("stderr", "")[-3000:]}})
         return 0
     ev += info["client"]["evaluations"]
     for f in info["client"].get("failures") or []:
-        ck.failure(f["signature"], f["what"], {"input": f["input"], "target": "generated client against generated server (design store)"})
+        ck.failure(f["signature"], f["what"], {"input": f["input"], "target": "generated client against generated server (design %s)" % design})
     for f in info.get("server_failures") or []:
-        ck.failure(f["signature"], f["what"], {"input": f["input"], "target": "generated server (design store)"})
+        ck.failure(f["signature"], f["what"], {"input": f["input"], "target": "generated server (design %s)" % design})
     raw = info.get("raw")
+    if not info.get("raw_expected"):
+        return ev
     if raw is None:
         ck.failure("generated-server-crashed", "the raw echo requests against the generated store server could not be completed",
                    {"input": {"design": "store", "detail": info.get("raw_error"), "stderr": info.get("stderr", "")[-3000:]}})
@@ -226,12 +230,16 @@ def run(tier, replay=None):
         raise RuntimeError("harness c20 failed: " + out[-3000:])
     evaluations = res["evaluations"] if res else 0
     distinct = res["distinct_nontrivial"] if res else 0
-    gen_info = None
+    gen_info, media_info = None, None
     if gen_ok:
         gen_info = run_gen_echo(ck, tier, want_race, res_out)
         evaluations += use_gen_echo(ck, gen_info, "tier " + tier)
         if gen_info.get("raw"):
             distinct += gen_info["raw"]["distinct_nontrivial"]
+        media_info = run_gen_echo(ck, tier, want_race, res_out, design="media")
+        mev = use_gen_echo(ck, media_info, "tier " + tier)
+        evaluations += mev
+        distinct += mev   # every media call carries an id unique to its goroutine and position
 
     # ---- the proof broke: search for a concrete failing schedule, then report
     searched = None
@@ -261,14 +269,31 @@ def run(tier, replay=None):
                     ck.failure(f["signature"], f["what"], {"input": f["input"]})
             if gen_ok:
                 searched["generated_echo"] = True
-                gi = run_gen_echo(ck, "search", True, res_out)
-                use_gen_echo(ck, gi, "search, -race")
+                for dsg in ("store", "media"):
+                    gi = run_gen_echo(ck, "search", True, res_out, design=dsg)
+                    use_gen_echo(ck, gi, "search, -race")
         if not ck.violations:
             thms = sorted({c["theorem"] for c in culprits}) or ["(see detail)"]
             ck.unproved("theorem %s (coq/Conc/Instance.v) no longer checks for the footprint extracted from this tree: " % " and ".join(thms) +
                         (("unprotected / unclassified shared location(s) " + ", ".join(c["location"] for c in culprits)) if culprits else ck.coq_error)[:300],
                         {"broken": "coq/Conc build (Instance.v: boolean discipline / isolation check by vm_compute on Generated_footprint.v)", "detail": ck.coq_error,
                          "footprint_violations": culprits, "unbalanced_paths": (fp or {}).get("unbalanced_paths"), "searched": searched})
+
+    # ---- which template branches the designs reach (computed by the harness from the generators' data)
+    branches = None
+    try:
+        branches = json.load(open(os.path.join(ck.work, "template_branches.json")))
+        for label in branches["required"]:
+            if not branches["covered"].get(label):
+                ck.notes.append("handler-template branch not reached by any fixed design: " + label)
+        want = json.load(open(os.path.join(tdir, "template_conditionals.json")))["conditionals"]
+        for f, n in sorted(want.items()):
+            src = open(os.path.join(REPO, "http", "codegen", "templates", f)).read()
+            have = len(re.findall(r"\{\{-?\s*(?:if|else if|else|range|with)\b", src))
+            if have != n:
+                ck.notes.append("template %s now has %d conditional actions (%d when the branch-coverage table was reviewed): review harness/cmd/c20 designs" % (f, have, n))
+    except (OSError, ValueError, KeyError):
+        pass
 
     # ---- evidence
     stats = (fp or {}).get("stats", {})
@@ -286,6 +311,9 @@ def run(tier, replay=None):
         for k, v in gen_info["raw"]["distribution"].items():
             dist["generated_" + k] = v
         dist["generated_client_calls"] = gen_info["client"]["evaluations"]
+    if media_info and media_info.get("client"):
+        for k, v in (media_info["client"].get("distribution") or {}).items():
+            dist["generated_media_" + k] = v
     cov = {
         "evaluations": evaluations, "distinct_nontrivial": distinct,
         "rule": (res or {}).get("rule", "") + "; plus the same request kinds against the server compiled from the code generated for design 'store' and calls through the generated client",
@@ -297,10 +325,11 @@ def run(tier, replay=None):
                         sorted({v["location"] for v in (fp or {}).get("violations_if_setup_ran_concurrently", [])}),
                         "setup_table": sorted((fp or {}).get("setup_table_used", {}).keys())},
         "request_scoped_types": (fp or {}).get("request_scoped_types"),
+        "template_branch_coverage": None if not branches else {k: (branches["covered"].get(k) or [])[:4] for k in branches["required"]},
         "shared_writes_classified": (fp or {}).get("shared_writes_classified"),
         "shared_writes_stale_entries": (fp or {}).get("shared_writes_stale_entries"),
         "race_detector": "on (thorough tier / replay of a race report)" if want_race else ("on (search after broken proof)" if searched else "off (quick tier)"),
-        "generated_echo": None if not gen_info else {k: gen_info.get(k) for k in ("built", "race", "rc")},
+        "generated_echo": [None if not gi else {k: gi.get(k) for k in ("design", "built", "race", "rc")} for gi in (gen_info, media_info)],
         "checker_cmd": "go run translate/c20 -> coq/Conc/Generated_footprint.v; coq_makefile -f coq/Conc/_CoqProject && make (coqc 8.16.1, full .vo) + Print Assumptions per theorem of Properties.v and Instance.v",
     }
     return ck.finish(cov, assumptions=ASSUMPTIONS, trusted_base=TRUSTED)
